@@ -98,6 +98,16 @@ def _child(batch, start, wfd, scratch, mem_limit):
     os._exit(0)
 
 
+def _cpu_seconds(pid):
+    """user+system CPU time of a process so far (the limit is on work done, not on wall-clock time of a loaded machine)"""
+    try:
+        with open(f"/proc/{pid}/stat") as f:
+            parts = f.read().rsplit(")", 1)[1].split()
+        return (int(parts[11]) + int(parts[12])) / os.sysconf("SC_CLK_TCK")
+    except Exception:
+        return None
+
+
 def run_batch(batch, limit=20.0, mem_limit=6 << 30):
     """-> list (one per archive) of dict(status=ok|hang|crash, res=..., changed=..., signal=...)"""
     results = [None] * len(batch)
@@ -115,11 +125,22 @@ def run_batch(batch, limit=20.0, mem_limit=6 << 30):
         os.close(w)
         rf = os.fdopen(r, "r")
         current, t_begin = None, time.time()
+        cpu_begin = _cpu_seconds(pid) or 0.0
         died = False
         while True:
-            timeout = limit - (time.time() - t_begin) if current is not None else limit * 3
-            ready, _, _ = select.select([rf], [], [], max(0.05, timeout))
+            ready, _, _ = select.select([rf], [], [], 1.0)
             if not ready:
+                wall = time.time() - t_begin
+                if current is None:
+                    if wall < limit * 3:
+                        continue                      # the worker is still starting up / between two archives
+                else:
+                    # `limit` seconds of CPU time for one archive -- work done, not wall-clock time on a loaded machine --
+                    # or ten times that on the wall clock (a child that sleeps or is starved)
+                    cpu_now = _cpu_seconds(pid)
+                    used = (cpu_now - cpu_begin) if cpu_now is not None else wall
+                    if used < limit and wall < 10 * limit:
+                        continue
                 # silent for too long: a hang (or an extremely slow call) on `current`
                 os.kill(pid, signal.SIGKILL)
                 os.waitpid(pid, 0)
@@ -147,10 +168,11 @@ def run_batch(batch, limit=20.0, mem_limit=6 << 30):
             msg = json.loads(line)
             if "begin" in msg:
                 current, t_begin = msg["begin"], time.time()
+                cpu_begin = _cpu_seconds(pid) or 0.0
             else:
                 results[msg["end"]] = dict(status="ok", res=msg["res"], changed=msg["changed"], detail=msg["detail"], blocked=msg["blocked"])
                 start = msg["end"] + 1
-                current = None
+                current, t_begin = None, time.time()
         rf.close()
         shutil.rmtree(scratch, ignore_errors=True)
         if not died and start >= len(batch):
